@@ -22,49 +22,69 @@ class _FS:
         self.dirs = set(dirs or ())
         self.opened = []
 
+    @staticmethod
+    def norm(p):
+        """the path the kernel resolves: repeated and trailing separators do not matter"""
+        if not isinstance(p, str):
+            raise MI.Raised("TypeError")
+        q = "/".join(x for x in p.split("/") if x not in ("", "."))
+        return ("/" + q) if p.startswith("/") else q
+
     def isdir(self, p):
-        return p in self.dirs
+        return self.norm(p) in self.dirs
 
     def isfile(self, p):
-        return p in self.files
+        return self.norm(p) in self.files and not p.endswith("/")
 
     def listdir(self, p):
+        p = self.norm(p)
         if p not in self.dirs:
             raise MI.Raised("OSError")
         pre = p + "/"
         return sorted({x[len(pre):].split("/")[0] for x in list(self.files) + list(self.dirs) if x.startswith(pre)})
 
     def join(self, a, *b):
-        return "/".join((a,) + b)
+        import posixpath
+        return posixpath.join(a, *b)
 
-    def makedirs(self, p):
-        if p in self.dirs or p in self.files:
+    def makedirs(self, p, mode=0o777, exist_ok=False):
+        p = self.norm(p)
+        if p in self.files or (p in self.dirs and not exist_ok):
             raise MI.Raised("OSError")
         parts = p.split("/")
         for i in range(1, len(parts) + 1):
+            if "/".join(parts[:i]) in self.files:
+                raise MI.Raised("OSError")
             self.dirs.add("/".join(parts[:i]))
 
-    def mkdir(self, p):
+    def mkdir(self, p, mode=0o777):
+        p = self.norm(p)
         if p in self.dirs or p in self.files or ("/" in p and p.rsplit("/", 1)[0] not in self.dirs):
             raise MI.Raised("OSError")
         self.dirs.add(p)
 
     def getsize(self, p):
+        p = self.norm(p)
         if p not in self.files:
             raise MI.Raised("OSError")
         return len(self.files[p])
 
-    def walk(self, top):
-        out = []
-
-        def rec(d):
-            names = self.listdir(d)
-            out.append((d, [n for n in names if d + "/" + n in self.dirs], [n for n in names if d + "/" + n in self.files]))
-            for n in names:
-                if d + "/" + n in self.dirs:
-                    rec(d + "/" + n)
-        rec(top)
-        return out
+    def walk(self, top, topdown=True, onerror=None, followlinks=False):
+        """os.walk: a generator; with topdown the caller may prune `dirnames` in place before the walk descends"""
+        import posixpath
+        try:
+            names = self.listdir(top)
+        except MI.Raised:
+            return
+        dirs = [n for n in names if self.norm(posixpath.join(top, n)) in self.dirs]
+        files = [n for n in names if self.norm(posixpath.join(top, n)) in self.files]
+        if topdown:
+            yield top, dirs, files
+        for n in list(dirs):
+            for x in self.walk(posixpath.join(top, n), topdown, onerror, followlinks):
+                yield x
+        if not topdown:
+            yield top, dirs, files
 
     def glob(self, pattern):
         import fnmatch
@@ -95,9 +115,10 @@ class _NS:
 
 
 def _os_ns(fs):
-    path = _NS(isdir=fs.isdir, isfile=fs.isfile, join=fs.join, exists=lambda p: p in fs.files or p in fs.dirs,
-               getsize=fs.getsize, basename=lambda p: p.rsplit("/", 1)[-1], dirname=lambda p: p.rsplit("/", 1)[0] if "/" in p else "",
-               split=lambda p: tuple(p.rsplit("/", 1)) if "/" in p else ("", p), sep="/")
+    import posixpath
+    path = _NS(isdir=fs.isdir, isfile=fs.isfile, join=fs.join, exists=lambda p: fs.norm(p) in fs.files or fs.norm(p) in fs.dirs,
+               getsize=fs.getsize, basename=posixpath.basename, dirname=posixpath.dirname, split=posixpath.split, normpath=posixpath.normpath,
+               relpath=posixpath.relpath, abspath=posixpath.normpath, isabs=posixpath.isabs, splitext=posixpath.splitext, sep="/")
     path.getmtime = lambda p: _mtime(fs, p)
     path.getatime = path.getmtime
     path.getctime = path.getmtime
@@ -106,6 +127,7 @@ def _os_ns(fs):
 
 
 def _mtime(fs, p):
+    p = fs.norm(p)
     if p not in fs.files and p not in fs.dirs:
         raise MI.Raised("OSError")
     return getattr(fs, "mtimes", {}).get(p, getattr(fs, "default_mtime", 100.0))
@@ -145,6 +167,9 @@ class _File:
     mi_native = True
 
     def __init__(self, fs, path, mode):
+        if path.endswith("/"):
+            raise MI.Raised("OSError")
+        path = fs.norm(path)
         self.fs, self.path, self.mode = fs, path, mode
         self.closed = False
         self.pos = 0
@@ -189,7 +214,7 @@ def _tree(prefix):
              prefix + "/skip.tmp": b"junk", prefix + "/sub/b.dat": b"\x00" * 70 + b"\xff", prefix + "/sub/deep/c": b"c" * 513,
              prefix + "/sub/deep/d.tmp": b"no", prefix + "/cache.tmp/inner": b"hidden", prefix + "/_private": b"p",
              prefix + "/.hidden": b"dot", prefix + "/sub/.cfg": b"k=v", prefix + "/data[1]/x": b"bracket", prefix + "/data1/y": b"plain",
-             prefix + "/build/out.o": b"obj"}
+             prefix + "/build/out.o": b"obj", prefix + "/v1..2.txt": b"dots", prefix + "/sub/~bak": b"tilde", prefix + "/sp ace": b"s"}
     dirs = {prefix, prefix + "/sub", prefix + "/sub/deep", prefix + "/hollow", prefix + "/cache.tmp", prefix + "/data[1]",
             prefix + "/data1", prefix + "/build", prefix + "/.git"}
     return files, dirs
@@ -248,8 +273,10 @@ def model_copy(ctx, rep, direction):
     flt_tmp = lambda name: not (name.endswith(".tmp") or name.startswith("_") or name == "build")
     for chunk, debug_on, stale in [(c_, False, False) for c_ in (1, 64, 256, 768, 1000, 16000)] + [(256, True, False), (256, False, True)]:
         for flt_name, flt in (("no filter", None), ("filter", flt_tmp)):
-            for what in ("tree", "file", "empty file"):
-                if chunk == 1 and what == "tree":
+            for what in ("tree", "file", "empty file", "tree named with a trailing separator"):
+                if chunk == 1 and what.startswith("tree"):
+                    continue
+                if what.endswith("separator") and (chunk != 256 or stale or debug_on):
                     continue
                 runs += 1
                 sfiles, sdirs = _tree("src")
@@ -257,7 +284,7 @@ def model_copy(ctx, rep, direction):
                 dst_fs = _FS({}, {"out"})
                 if stale:
                     # an earlier copy is already there: same names and sizes, other content, not older than the source
-                    of_, od_ = _expected(sfiles, sdirs, {"tree": "src", "file": "src/a.bin", "empty file": "src/empty"}[what],
+                    of_, od_ = _expected(sfiles, sdirs, {"tree": "src", "file": "src/a.bin", "empty file": "src/empty"}.get(what, "src"),
                                          "out/copy", flt)
                     dst_fs = _FS({k_: bytes((x_ ^ 0x55) for x_ in v_) for k_, v_ in of_.items()}, {"out"} | od_)
                     dst_fs.default_mtime = 200.0
@@ -270,7 +297,7 @@ def model_copy(ctx, rep, direction):
                     glob[nm] = (lambda f: lambda *a, **k: MI.call_function(f.node, list(a), extra, k))(f)
                 extra["__globals__"] = glob
                 extra["__global_lookup__"] = _glookup(ctx, mod, extra)
-                s_path = {"tree": "src", "file": "src/a.bin", "empty file": "src/empty"}[what]
+                s_path = {"tree": "src", "file": "src/a.bin", "empty file": "src/empty"}.get(what, "src/")
                 d_path = "out/copy"
                 try:
                     kw = {"chunk_size": chunk}
@@ -280,7 +307,7 @@ def model_copy(ctx, rep, direction):
                     out = None
                 except MI.Raised as r:
                     out = "raises %s" % r.name
-                want_f, want_d = _expected(sfiles, sdirs, s_path, d_path, flt)
+                want_f, want_d = _expected(sfiles, sdirs, s_path.rstrip("/"), d_path, flt)
                 got_f = {k: v for k, v in dst_fs.files.items()}
                 got_d = {d for d in dst_fs.dirs if d != "out"}
                 label = "%s of a %s, chunk size %d, %s%s%s" % (direction, what, chunk, flt_name, ", debug logging enabled" if debug_on else "",
